@@ -11,8 +11,8 @@ git checkout -q -- . ; rm -rf crates/$CRATE/tests/$TEST.rs
 git apply DELIVER/patch.diff || { echo "RESULT $ID patch-does-not-apply"; exit 1; }
 suite=$(cargo test --workspace --no-fail-fast --offline 2>&1 | grep -E "^test result" | awk '{p+=$4; f+=$6} END {print p" passed "f" failed"}')
 mkdir -p crates/$CRATE/tests; cp "DELIVER/$DEMO" crates/$CRATE/tests/$TEST.rs
-RUSTFLAGS="$FLAGS" cargo test -p $CRATE --offline --test $TEST > /tmp/seed-$ID-with.txt 2>&1; with=$?
+RUSTFLAGS="$FLAGS" cargo test ${SEED_CARGO_FLAGS:-} -p $CRATE --offline --test $TEST > /tmp/seed-$ID-with.txt 2>&1; with=$?
 git apply -R DELIVER/patch.diff
-RUSTFLAGS="$FLAGS" cargo test -p $CRATE --offline --test $TEST > /tmp/seed-$ID-without.txt 2>&1; without=$?
+RUSTFLAGS="$FLAGS" cargo test ${SEED_CARGO_FLAGS:-} -p $CRATE --offline --test $TEST > /tmp/seed-$ID-without.txt 2>&1; without=$?
 rm -f crates/$CRATE/tests/$TEST.rs; rmdir crates/$CRATE/tests 2>/dev/null; git checkout -q -- .
 echo "RESULT $ID suite_with_patch=[$suite] demo_with_patch_exit=$with demo_without_patch_exit=$without"
